@@ -185,8 +185,66 @@ class Termination:
                 elif isinstance(n, ast.Call):
                     sym = self.prog.resolve_expr_symbol(fn.module, n.func)
                     if isinstance(sym, tuple) and sym[0] == 'ext' and sym[1] in INFINITE_ITERATORS:
-                        out.append((fn, n, 'iterator', False, f'infinite iterator {sym[1]}'))
+                        if sym[1] == 'itertools.repeat' and (len(n.args) == 2 or any(k.arg == 'times' for k in n.keywords)):
+                            continue        # repeat(x, times): finite
+                        why = self._bounded_consumption(fn, n, 0)
+                        if why:
+                            out.append((fn, n, 'iterator', True, f'endless iterator {sym[1]}: {why}'))
+                        else:
+                            out.append((fn, n, 'iterator', False, f'infinite iterator {sym[1]}'))
         return out
+
+    def _bounded_consumption(self, fn: FuncInfo, e: ast.AST, depth: int) -> Optional[str]:
+        """The endless iterator made by expression `e` is only ever consumed in step with a finite sequence: it is an argument
+        of map(f, ...) / zip(...) next to a list / tuple / string, it is cut by islice(it, n), a single element is taken with
+        next(it), it is part of chain(...) that is consumed that way, or the function returns it and every call site in the
+        package consumes the result that way.  None when some use may run it to exhaustion."""
+        if depth > 5:
+            return None
+        prog = self.prog
+        p = prog.parent(e)
+        if isinstance(p, ast.Return) and p.value is e:
+            callers = [(c, nd) for c, nd, _k in self.cg.callers(fn) if isinstance(nd, ast.Call)]
+            if not callers:
+                return None
+            notes = []
+            for cfn, cnode in callers:
+                w = self._bounded_consumption(cfn, cnode, depth + 1)
+                if not w:
+                    return None
+                notes.append(w)
+            return f'returned to {len(callers)} call site(s): ' + notes[0]
+        if isinstance(p, ast.Call) and any(a is e for a in p.args):
+            fname = p.func.id if isinstance(p.func, ast.Name) else p.func.attr if isinstance(p.func, ast.Attribute) else ''
+            if fname in ('map', 'zip'):
+                others = [a for a in p.args if a is not e and not (fname == 'map' and a is p.args[0])]
+                env = self.cg.env(fn)
+                for a in others:
+                    t = env.type_of(a)
+                    t = t[1] if t[0] == 'opt' else t
+                    if t[0] in ('list', 'tuple', 'str', 'dict', 'set') or isinstance(a, (ast.List, ast.Tuple, ast.ListComp)):
+                        return f'consumed by {fname}() in step with the finite `{ast.unparse(a)[:40]}`'
+                return None
+            if fname == 'islice' and p.args and p.args[0] is e and len(p.args) >= 2:
+                return 'cut by islice()'
+            if fname == 'next' and p.args[0] is e:
+                return 'a single element is taken with next()'
+            if fname == 'chain':
+                return self._bounded_consumption(fn, p, depth + 1)
+            return None
+        if isinstance(p, ast.Assign) and p.value is e and len(p.targets) == 1 and isinstance(p.targets[0], ast.Name):
+            nm = p.targets[0].id
+            uses = [x for x in iter_own_nodes(fn.node) if isinstance(x, ast.Name) and x.id == nm and isinstance(x.ctx, ast.Load)]
+            if not uses:
+                return None
+            notes = []
+            for u in uses:
+                w = self._bounded_consumption(fn, u, depth + 1)
+                if not w:
+                    return None
+                notes.append(w)
+            return notes[0]
+        return None
 
     def _shrinks(self, stmt: ast.stmt, test_names: Set[str], test: ast.expr) -> bool:
         # V = V[a:b]
